@@ -921,7 +921,15 @@ fn gen_rotblock_t<T: RealNumber>(c: &mut Case) {
     let th0 = c.rng.uni(0.05, std::f64::consts::PI - 0.05);
     let pairs: Vec<(f64, f64)> = (0..np)
         .map(|_| {
-            let th = if same_angle { th0 } else { c.rng.uni(0.01, std::f64::consts::PI - 0.01) };
+            // one pair in five: a rotation by a tiny angle (a conjugate pair 1e-12..1e-3 off the real axis, far above
+            // rounding and far below the coarse scale of the matrix)
+            let th = if same_angle {
+                th0
+            } else if c.rng.bool(0.2) {
+                c.rng.logu(1e-12, 1e-3)
+            } else {
+                c.rng.uni(0.01, std::f64::consts::PI - 0.01)
+            };
             (th.cos(), th.sin())
         })
         .collect();
